@@ -455,6 +455,7 @@ func TestC23Post(t *testing.T) {
 			pl, desc := describe(caseIdx)
 			pl["syscall"] = mon.Short([]byte(line), 600)
 			pl["clean_path"] = mon.Short([]byte(cl), 600)
+			r.Event("refutations_by_syscall_monitor", 1)
 			if c != nil {
 				pl["root"], pl["compress_root"] = c.root, c.croot
 			}
